@@ -453,6 +453,25 @@ Lemma matches_attrs_cons sub M a c rest o :
   matches_attrs sub M (ACons a c rest) o = matches_attr sub M c (attr (mw M) o a) && matches_attrs sub M rest o.
 Proof. reflexivity. Qed.
 
+Lemma sels_pat_eq C s oc p a t l :
+  sels_pat C s oc p a (Pat t l) =
+  (if s then PAttr p a :: (match nested_var C oc p a t (negb (is_anil l)) with PFlat _ => [nested_var C oc p a t (negb (is_anil l))] | _ => [] end) else [])
+  ++ sels_alist C (dflt (f_type C oc a)) (nested_var C oc p a t (negb (is_anil l))) l.
+Proof. reflexivity. Qed.
+Lemma sels_alist_cons C oc p a c rest : sels_alist C oc p (ACons a c rest) = sels_apat C false oc p a c ++ sels_alist C oc p rest.
+Proof. reflexivity. Qed.
+Lemma srows_pat_obj sub M s t l o' :
+  srows_pat sub M s (Pat t l) (VO o') = guard (type_ok sub M t o') (map (app (cols s [VO o'])) (srows_alist sub M l o')).
+Proof. reflexivity. Qed.
+Lemma srows_pat_coll sub M s t l xs :
+  srows_pat sub M s (Pat t l) (VLO xs) =
+  flat_map (fun x => guard (type_ok sub M t x) (map (app (cols s [VLO xs; VO x])) (srows_alist sub M l x))) xs.
+Proof. reflexivity. Qed.
+Lemma srows_alist_cons sub M a c rest o :
+  srows_alist sub M (ACons a c rest) o =
+  flat_map (fun r1 => map (app r1) (srows_alist sub M rest o)) (srows_apat sub M false c (attr (mw M) o a)).
+Proof. reflexivity. Qed.
+
 (* ------------------------------------------------------------------ where the emitted conditions live *)
 Section TrUnder.
   Variable C : cmodel.
@@ -1221,7 +1240,7 @@ Section Main.
       assert (b = true) by (apply Hb; apply nonempty_ex; eauto). subst. simpl. auto.
     - intros r Hr. destruct b; [|contradiction]. destruct Hr as [<-|[]].
       assert (Hne : eval_all cs e <> []) by (apply Hb; reflexivity). apply nonempty_ex in Hne. destruct Hne as [e' He'].
-      exists e'. split; auto. constructor.
+      exists e'. split; auto.
   Qed.
   Lemma rows_attrsel p a o cs e b : concl (PAttr p a) cs e b -> lookup e p = Some (VO o) ->
     rowsOK [PAttr p a] cs e (guard b [[attr W o a]]).
@@ -1240,7 +1259,7 @@ Section Main.
   Lemma C_rows_lit v : C_rows (PLit v).
   Proof.
     intros s oc p a e o Hg Hp Hi Hf Hok. destruct all_stmts as [_ [_ HC]].
-    apply (rows_nosel (PAttr p a)). apply (HC (PLit v)); auto. apply (proj2 (proj2 (fok_mono C objcls))). exact Hok.
+    apply (rows_nosel (PAttr p a)). apply (HC (PLit v)); auto.
   Qed.
   Lemma C_rows_any v : C_rows (PAny v).
   Proof.
@@ -1253,6 +1272,271 @@ Section Main.
     intros s oc p a e o Hg Hp Hi Hf Hok. destruct all_stmts as [_ [_ HC]].
     pose proof (HC (PAll v) oc p a e o Hg Hp Hi Hf (proj2 (proj2 (fok_mono C objcls)) _ _ _ _ Hok)) as Hc.
     destruct s; [apply rows_attrsel; auto|apply (rows_nosel (PAttr p a)); auto].
+  Qed.
+
+  (* membership in the results of a nested match on a collection attribute *)
+  Lemma mem_coll_filter l' T d p a e o xs : lookup e p = Some (VO o) -> fresh e (PAttr p a) -> attr W o a = VLO xs ->
+    forall e', In e' (eval_all ([THas (PFlat (PAttr p a)) T] ++ tr_alist C d (PFlat (PAttr p a)) l') e) <->
+      exists ox, In ox xs /\ sub C (otype M ox) T = true /\
+        In e' (eval_all (tr_alist C d (PFlat (PAttr p a)) l') ((PFlat (PAttr p a), VO ox) :: (PAttr p a, attr W o a) :: e)).
+  Proof.
+    intros Hp Hf Hav e'. rewrite eval_all_app, eval_all_single, in_flat_map. unfold Match.eval.
+    rewrite (eval_flat_from e p a o Hp Hf), map_map. cbn [fst snd]. rewrite Hav. cbn [elems].
+    rewrite map_map. split.
+    - intros [e2 [H1 H2]]. apply (trues_map_in (fun ox => (PFlat (PAttr p a), VO ox) :: (PAttr p a, VLO xs) :: e) (fun ox => isinst C M (VO ox) T)) in H1.
+      destruct H1 as [ox [? [? ->]]]. eauto.
+    - intros [ox [? [? ?]]]. eexists. split; [|eassumption].
+      apply (trues_map_in (fun ox => (PFlat (PAttr p a), VO ox) :: (PAttr p a, VLO xs) :: e) (fun ox => isinst C M (VO ox) T)). eauto.
+  Qed.
+  Lemma mem_coll_nofilter l' d p a e o xs c cs' : lookup e p = Some (VO o) -> fresh e (PAttr p a) -> attr W o a = VLO xs ->
+    tr_alist C d (PFlat (PAttr p a)) l' = c :: cs' ->
+    forall e', In e' (eval_all (c :: cs') e) <->
+      exists ox, In ox xs /\ In e' (eval_all (c :: cs') ((PFlat (PAttr p a), VO ox) :: (PAttr p a, attr W o a) :: e)).
+  Proof.
+    intros Hp Hf Hav Hcs e'. set (pf := PFlat (PAttr p a)) in *.
+    assert (Hcu : exists ax, under (PAttr pf ax) (cpath c)).
+    { apply (tr_alist_under_attr C l' d pf c). rewrite Hcs. simpl. auto. }
+    destruct Hcu as [ax Hcu].
+    assert (Hev2 : eval_path pf e = map (fun x => ((pf, x) :: (PAttr p a, attr W o a) :: e, x)) (map VO xs)).
+    { unfold pf. rewrite (eval_flat_from e p a o Hp Hf), Hav. reflexivity. }
+    rewrite (eval_all_split C M D c cs' pf e).
+    - rewrite Hev2. split.
+      + intros [r [Hr Hin]]. apply in_map_iff in Hr. destruct Hr as [x [<- Hx]]. apply in_map_iff in Hx.
+        destruct Hx as [ox [<- Hox]]. exists ox. auto.
+      + intros [ox [Hox Hin]]. exists ((pf, VO ox) :: (PAttr p a, attr W o a) :: e, VO ox). split; auto.
+        apply in_map_iff. exists (VO ox). split; auto. apply in_map; auto.
+    - eapply under_trans; [apply under_attr|exact Hcu].
+    - intros x Hx. apply Hf. eapply under_trans; [apply under_flat|exact Hx].
+    - intros Hx. split.
+      + destruct c as [ex k pc v| |]; try discriminate. simpl in Hcu. unfold exists_keys. right. unfold pf. apply flats_in.
+        destruct pc as [|pc' a1|pc']; simpl qvar.
+        * eapply under_trans; [apply under_attr|exact Hcu].
+        * eapply under_trans; [apply under_attr|exact Hcu].
+        * simpl in Hcu. destruct Hcu as [Hc|Hc]; [discriminate|]. eapply under_trans; [apply under_attr|exact Hc].
+      + rewrite Hev2. intros r1 r2 H1 H2 Heq. apply in_map_iff in H1. apply in_map_iff in H2.
+        destruct H1 as [x1 [<- _]]. destruct H2 as [x2 [<- _]]. simpl in Heq. subst. reflexivity.
+  Qed.
+
+  (* the rows of a nested match on a collection attribute, from those of its members *)
+  Lemma rows_coll (s : bool) sels' cs whole (P : Z -> bool) (R' : Z -> list (list val)) p a e o xs :
+    good e -> lookup e p = Some (VO o) -> attr W o a = VLO xs ->
+    (forall e', In e' (eval_all whole e) <->
+       exists ox, In ox xs /\ P ox = true /\ In e' (eval_all cs ((PFlat (PAttr p a), VO ox) :: (PAttr p a, attr W o a) :: e))) ->
+    (forall ox, In ox xs -> rowsOK sels' cs ((PFlat (PAttr p a), VO ox) :: (PAttr p a, attr W o a) :: e) (R' ox)) ->
+    (forall ox e', In ox xs -> In e' (eval_all cs ((PFlat (PAttr p a), VO ox) :: (PAttr p a, attr W o a) :: e)) ->
+       good e' /\ ext e' ((PFlat (PAttr p a), VO ox) :: (PAttr p a, attr W o a) :: e) /\ ext e' e) ->
+    rowsOK ((if s then [PAttr p a; PFlat (PAttr p a)] else []) ++ sels') whole e
+           (flat_map (fun x => guard (P x) (map (app (cols s [VLO xs; VO x])) (R' x))) xs).
+  Proof.
+    intros Hg Hp Hav Hmem Hrows Hres.
+    assert (Hpre : forall ox e', In ox xs -> In e' (eval_all cs ((PFlat (PAttr p a), VO ox) :: (PAttr p a, attr W o a) :: e)) ->
+              Forall2 (dval e') (if s then [PAttr p a; PFlat (PAttr p a)] else []) (cols s [VLO xs; VO ox])).
+    { intros ox e' Hox Hin. destruct (Hres ox e' Hox Hin) as [Hg' [Hx2 Hx]]. destruct s; simpl; [|constructor].
+      constructor; [rewrite <- Hav; apply dval_attr_of; auto|]. constructor; [|constructor].
+      apply dv_bound. apply Hx2. apply lookup_cons_eq. }
+    split.
+    - intros e' Hin. apply Hmem in Hin. destruct Hin as [ox [Hox [HP Hin]]].
+      destruct (Hrows ox Hox) as [Hs _]. destruct (Hs e' Hin) as [r' [Hr' HF]].
+      exists (cols s [VLO xs; VO ox] ++ r'). split.
+      + apply in_flat_map. exists ox. split; auto. rewrite HP. simpl. apply in_map. exact Hr'.
+      + apply Forall2_app; auto.
+    - intros r Hr. apply in_flat_map in Hr. destruct Hr as [ox [Hox Hr]]. destruct (P ox) eqn:HP; [|contradiction].
+      simpl in Hr. apply in_map_iff in Hr. destruct Hr as [r' [<- Hr']].
+      destruct (Hrows ox Hox) as [_ Hc]. destruct (Hc r' Hr') as [e' [Hin HF]].
+      exists e'. split; [apply Hmem; eauto|]. apply Forall2_app; auto.
+  Qed.
+
+  Lemma rows_one (s : bool) sels' cs whole (b : bool) (R' : list (list val)) p a e o o' :
+    good e -> lookup e p = Some (VO o) -> attr W o a = VO o' ->
+    (forall e', In e' (eval_all whole e) <-> b = true /\ In e' (eval_all cs ((PAttr p a, attr W o a) :: e))) ->
+    rowsOK sels' cs ((PAttr p a, attr W o a) :: e) R' ->
+    (forall e', In e' (eval_all cs ((PAttr p a, attr W o a) :: e)) -> good e' /\ ext e' e) ->
+    rowsOK ((if s then [PAttr p a] else []) ++ sels') whole e (guard b (map (app (cols s [VO o'])) R')).
+  Proof.
+    intros Hg Hp Hav Hmem [Hs Hc] Hres.
+    assert (Hpre : forall e', In e' (eval_all cs ((PAttr p a, attr W o a) :: e)) ->
+              Forall2 (dval e') (if s then [PAttr p a] else []) (cols s [VO o'])).
+    { intros e' Hin. destruct (Hres e' Hin) as [Hg' Hx]. destruct s; simpl; [|constructor].
+      constructor; [rewrite <- Hav; apply dval_attr_of; auto|constructor]. }
+    split.
+    - intros e' Hin. apply Hmem in Hin. destruct Hin as [-> Hin]. destruct (Hs e' Hin) as [r' [Hr' HF]].
+      exists (cols s [VO o'] ++ r'). split; [simpl; apply in_map; auto|]. apply Forall2_app; auto.
+    - intros r Hr. destruct b; [|contradiction]. simpl in Hr. apply in_map_iff in Hr. destruct Hr as [r' [<- Hr']].
+      destruct (Hc r' Hr') as [e' [Hin HF]]. exists e'. split; [apply Hmem; auto|]. apply Forall2_app; auto.
+  Qed.
+
+  Lemma nest_flat_hyps p a e o xs ox : good e -> lookup e p = Some (VO o) -> fresh e (PAttr p a) ->
+    attr W o a = VLO xs -> In ox xs ->
+    good ((PFlat (PAttr p a), VO ox) :: (PAttr p a, attr W o a) :: e) /\
+    lookup ((PFlat (PAttr p a), VO ox) :: (PAttr p a, attr W o a) :: e) (PFlat (PAttr p a)) = Some (VO ox) /\
+    (forall a', fresh ((PFlat (PAttr p a), VO ox) :: (PAttr p a, attr W o a) :: e) (PAttr (PFlat (PAttr p a)) a')).
+  Proof.
+    intros Hg Hp Hf Hav Hox.
+    assert (Hin : In (VO ox) (elems (attr W o a))) by (rewrite Hav; simpl; apply in_map; auto).
+    destruct (bind_flat e p a o (VO ox) Hg Hp Hf Hin) as [Hg2 [Hx2 [Hfr2 Hl2]]].
+    split; auto. split; auto.
+    intros a'. apply (fresh_nested e _ (PAttr p a)); auto; [apply under_flat|].
+    intros x H1 H2. destruct (path_eq_dec (PFlat (PAttr p a)) x) as [<-|N1]; [simpl; lia|].
+    destruct (path_eq_dec (PAttr p a) x) as [<-|N2]; [simpl; lia|].
+    rewrite !lookup_cons_ne in H2 by auto. congruence.
+  Qed.
+  Lemma nest_attr_hyps p a e o : good e -> lookup e p = Some (VO o) -> fresh e (PAttr p a) ->
+    good ((PAttr p a, attr W o a) :: e) /\ lookup ((PAttr p a, attr W o a) :: e) (PAttr p a) = Some (attr W o a) /\
+    (forall a', fresh ((PAttr p a, attr W o a) :: e) (PAttr (PAttr p a) a')).
+  Proof.
+    intros Hg Hp Hf. destruct (bind_attr e p a o Hg Hp Hf) as [Hev [Hg1 [Hx1 [Hfr1 Hl1]]]].
+    split; auto. split; auto.
+    intros a'. apply (fresh_nested e _ (PAttr p a)); auto; [apply under_refl|].
+    intros x H1 H2. destruct (path_eq_dec (PAttr p a) x) as [<-|N2]; [lia|].
+    rewrite lookup_cons_ne in H2 by auto. congruence.
+  Qed.
+
+  Lemma P_rows_case t l' : A_rows l' -> P_rows (Pat t l').
+  Proof.
+    intros IHr s oc p a e o Hg Hp Hi Hf Hok. destruct all_stmts as [_ [HA _]]. pose proof (HA l') as IH.
+    change (fok_apat C objcls true oc p a (PMatch (Pat t l'))) with (fok_pat C objcls true oc p a (Pat t l')) in Hok.
+    rewrite fok_pat_eq in Hok. cbv zeta in Hok.
+    apply andb_true_iff in Hok. destruct Hok as [Hok Hal]. apply andb_true_iff in Hok. destruct Hok as [Hok Hhead].
+    apply andb_true_iff in Hok. destruct Hok as [Hty Hobj].
+    pose proof (proj1 (proj2 (fok_mono C objcls)) _ _ _ Hal) as Hal0.
+    destruct (f_type C oc a) as [d|] eqn:Hd; [|discriminate]. cbn [dflt] in *.
+    change (sels_apat C s oc p a (PMatch (Pat t l'))) with (sels_pat C s oc p a (Pat t l')).
+    change (srows_apat (sub C) M s (PMatch (Pat t l')) (attr W o a)) with (srows_pat (sub C) M s (Pat t l') (attr W o a)).
+    rewrite sels_pat_eq, tr_apat_match, tr_pat_eq, Hd. cbn [dflt].
+    pose proof (Htyped o oc a d Hi Hd) as Ht.
+    unfold nested_filter, nested_var in *.
+    destruct (f_iter C oc a) eqn:Hit; destruct (type_filter C oc a t) eqn:Htf; unfold resolve_flatten in *; cbn [andb orb] in *.
+    - (* collection, type filter *)
+      rewrite orb_true_r in *. destruct (filter_has_type oc a t d Htf Hd) as [T ->].
+      destruct Ht as [xs [Hav Hxs]]. rewrite Hav, srows_pat_coll.
+      apply (rows_coll s _ (tr_alist C d (PFlat (PAttr p a)) l') _ (fun ox => sub C (otype M ox) T)
+               (fun ox => srows_alist (sub C) M l' ox) p a e o xs Hg Hp Hav).
+      + apply mem_coll_filter; auto.
+      + intros ox Hox. destruct (nest_flat_hyps p a e o xs ox Hg Hp Hf Hav Hox) as [Hg2 [Hl2 Hf2]].
+        apply IHr; auto. red. auto.
+      + intros ox e' Hox Hin.
+        destruct (nest_flat l' IH d p a e o xs ox Hg Hp Hf Hav Hox (Hxs ox Hox) Hal0) as [[Hc1 _] Hc2].
+        destruct (Hc1 e' Hin) as [? [? _]]. destruct (Hc2 e' Hin). auto.
+    - (* collection, no type filter: some condition is emitted (strict fragment) *)
+      rewrite orb_false_r in *. simpl in Hhead.
+      destruct l' as [|a0 c0 rest0] eqn:Hl'; [discriminate|]. rewrite <- Hl' in *.
+      replace (negb (is_anil l')) with true in * by (rewrite Hl'; reflexivity).
+      destruct Ht as [xs [Hav Hxs]]. rewrite Hav, srows_pat_coll. simpl app.
+      destruct (tr_alist C d (PFlat (PAttr p a)) l') as [|c cs'] eqn:Hcs; [discriminate|].
+      rewrite (flat_map_ext_in _ (fun x => guard ((fun _ : Z => true) x)
+                 (map (app (cols s [VLO xs; VO x])) ((fun ox => srows_alist (sub C) M l' ox) x))) xs).
+      2:{ intros x Hx. rewrite (nofilter_type_ok oc a t d x Htf Hd (Hxs x Hx)). reflexivity. }
+      apply (rows_coll s _ (c :: cs') _ (fun _ => true) (fun ox => srows_alist (sub C) M l' ox) p a e o xs Hg Hp Hav).
+      + intros e'. rewrite (mem_coll_nofilter l' d p a e o xs c cs' Hp Hf Hav Hcs e').
+        split; intros [ox H]; exists ox; tauto.
+      + intros ox Hox. destruct (nest_flat_hyps p a e o xs ox Hg Hp Hf Hav Hox) as [Hg2 [Hl2 Hf2]].
+        rewrite <- Hcs. apply IHr; auto. red. auto.
+      + intros ox e' Hox Hin. rewrite <- Hcs in Hin.
+        destruct (nest_flat l' IH d p a e o xs ox Hg Hp Hf Hav Hox (Hxs ox Hox) Hal0) as [[Hc1 _] Hc2].
+        destruct (Hc1 e' Hin) as [? [? _]]. destruct (Hc2 e' Hin). auto.
+    - (* one-to-one, type filter *)
+      destruct (filter_has_type oc a t d Htf Hd) as [T ->]. rewrite Hobj in Ht. destruct Ht as [o' [Hav Ho']].
+      rewrite Hav, srows_pat_obj.
+      destruct (has_attr T e p a o Hg Hp Hf) as [_ Heq].
+      destruct (nest_attr_hyps p a e o Hg Hp Hf) as [Hg1 [Hl1 Hf1]].
+      apply (rows_one s _ (tr_alist C d (PAttr p a) l') _ (type_ok (sub C) M (Some T) o') (srows_alist (sub C) M l' o') p a e o o' Hg Hp Hav).
+      + intros e'. rewrite eval_all_app, Heq, Hav. cbn [isinst type_ok].
+        destruct (sub C (otype M o') T); simpl; [rewrite app_nil_r; rewrite <- Hav; tauto|]. split; [tauto|intros [? _]; discriminate].
+      + apply IHr; auto. rewrite Hl1, Hav. reflexivity.
+      + intros e' Hin. destruct (nest_attr l' IH d p a e o o' Hg Hp Hf Hav Ho' Hal0) as [[Hc1 _] Hc2].
+        destruct (Hc1 e' Hin) as [? _]. destruct (Hc2 e' Hin). auto.
+    - (* one-to-one, no type filter *)
+      rewrite Hobj in Ht. destruct Ht as [o' [Hav Ho']]. simpl app.
+      rewrite Hav, srows_pat_obj. rewrite (nofilter_type_ok oc a t d o' Htf Hd Ho').
+      destruct (nest_attr_hyps p a e o Hg Hp Hf) as [Hg1 [Hl1 Hf1]].
+      assert (Hrows1 : rowsOK (sels_alist C d (PAttr p a) l') (tr_alist C d (PAttr p a) l') ((PAttr p a, attr W o a) :: e)
+                         (srows_alist (sub C) M l' o')).
+      { apply IHr; auto. rewrite Hl1, Hav. reflexivity. }
+      destruct (nest_attr l' IH d p a e o o' Hg Hp Hf Hav Ho' Hal0) as [[Hc1 _] Hc2].
+      destruct (tr_alist C d (PAttr p a) l') as [|c cs'] eqn:Hcs.
+      + (* nothing emitted: the attribute node is not even bound, its value is determined all the same *)
+        assert (Hn : lookup e (PAttr p a) = None) by (apply Hf, under_refl).
+        destruct Hrows1 as [Hs Hc]. simpl in Hs, Hc. split.
+        * intros e' [<-|[]]. destruct (Hs _ (or_introl eq_refl)) as [r' [Hr' HF]].
+          exists (cols s [VO o'] ++ r'). split; [simpl; apply in_map; auto|]. apply Forall2_app.
+          -- destruct s; simpl; [|constructor]. constructor; [rewrite <- Hav; apply dval_attr_of; auto|constructor].
+          -- clear - HF Hg Hp Hn. induction HF; constructor; auto. eapply dval_uncons; eauto.
+        * intros r Hr. simpl in Hr. apply in_map_iff in Hr. destruct Hr as [r' [<- Hr']].
+          destruct (Hc r' Hr') as [e' [[<-|[]] HF]]. exists e. split; [simpl; auto|]. apply Forall2_app.
+          -- destruct s; simpl; [|constructor]. constructor; [rewrite <- Hav; apply dval_attr_of; auto|constructor].
+          -- clear - HF Hg Hp Hn. induction HF; constructor; auto. eapply dval_uncons; eauto.
+      + assert (Heq : eval_all (c :: cs') e = eval_all (c :: cs') ((PAttr p a, attr W o a) :: e)).
+        { destruct (bind_attr e p a o Hg Hp Hf) as [Hev _].
+          apply (eval_all_factor1 C M D c cs' (PAttr p a) e _ (attr W o a)); auto.
+          apply (proj1 (proj2 (tr_under C)) l' d (PAttr p a) c). rewrite Hcs. simpl. auto. }
+        apply (rows_one s _ (c :: cs') _ true (srows_alist (sub C) M l' o') p a e o o' Hg Hp Hav); auto.
+        * intros e'. rewrite Heq. tauto.
+        * intros e' Hin. destruct (Hc1 e' Hin) as [? _]. destruct (Hc2 e' Hin). auto.
+  Qed.
+
+  Lemma A_rows_nil : A_rows ANil.
+  Proof.
+    intros oc p e o Hg Hp Hi Hf Hok. simpl. split.
+    - intros e' [<-|[]]. exists []. split; [simpl; auto|constructor].
+    - intros r [<-|[]]. exists e. split; [simpl; auto|constructor].
+  Qed.
+
+  Lemma A_rows_cons a c rest : C_rows c -> A_rows rest -> A_rows (ACons a c rest).
+  Proof.
+    intros IHc IHr oc p e o Hg Hp Hi Hf Hok. destruct all_stmts as [_ [HA HC]].
+    rewrite fok_alist_cons in Hok.
+    apply andb_true_iff in Hok. destruct Hok as [Hok Hokr]. apply andb_true_iff in Hok. destruct Hok as [Hnd Hokc].
+    pose proof (proj2 (proj2 (fok_mono C objcls)) _ _ _ _ Hokc) as Hokc0.
+    pose proof (proj1 (proj2 (fok_mono C objcls)) _ _ _ Hokr) as Hokr0.
+    assert (Hnin : ~ In a (names rest)).
+    { intros Hin. apply negb_true_iff in Hnd. unfold nmemb in Hnd.
+      assert (existsb (Nat.eqb a) (names rest) = true) by (apply existsb_exists; exists a; split; auto; apply Nat.eqb_refl).
+      congruence. }
+    destruct (HC c oc p a e o Hg Hp Hi (Hf a (or_introl eq_refl)) Hokc0) as [Hc1 _].
+    destruct (IHc false oc p a e o Hg Hp Hi (Hf a (or_introl eq_refl)) Hokc) as [Hcs Hcc].
+    rewrite tr_alist_cons, sels_alist_cons, srows_alist_cons.
+    (* the hypotheses hold again after the conditions of the first keyword *)
+    assert (Hnext : forall e1, In e1 (eval_all (tr_apat C oc p a c) e) ->
+              good e1 /\ lookup e1 p = Some (VO o) /\ (forall a', In a' (names rest) -> fresh e1 (PAttr p a'))).
+    { intros e1 Hin1. destruct (Hc1 e1 Hin1) as [Hg1 [Hx1 Hfr1]]. split; auto. split; auto.
+      intros a' Ha' x Hx. destruct (lookup e1 x) eqn:Hl; auto. exfalso.
+      assert (Hn : lookup e x = None) by (apply (Hf a'); simpl; auto).
+      assert (Hu : under (PAttr p a) x) by (apply Hfr1; auto; congruence).
+      assert (a = a') by (eapply under_attr_inj; eauto). subst. contradiction. }
+    split.
+    - intros e' Hin. rewrite eval_all_app, in_flat_map in Hin. destruct Hin as [e1 [Hin1 Hin2]].
+      destruct (Hnext e1 Hin1) as [Hg1 [Hp1 Hf1]].
+      destruct (Hcs e1 Hin1) as [r1 [Hr1 HF1]].
+      destruct (IHr oc p e1 o Hg1 Hp1 Hi Hf1 Hokr) as [Hrs _]. destruct (Hrs e' Hin2) as [r2 [Hr2 HF2]].
+      destruct (HA rest oc p e1 o Hg1 Hp1 Hi Hf1 Hokr0) as [Hres _]. destruct (Hres e' Hin2) as [Hg' [Hx' _]].
+      exists (r1 ++ r2). split.
+      + apply in_flat_map. exists r1. split; auto. apply in_map. exact Hr2.
+      + apply Forall2_app; auto. clear - HF1 Hg' Hx'. induction HF1; constructor; auto. eapply dval_ext; eauto.
+    - intros r Hr. apply in_flat_map in Hr. destruct Hr as [r1 [Hr1 Hr]]. apply in_map_iff in Hr. destruct Hr as [r2 [<- Hr2]].
+      destruct (Hcc r1 Hr1) as [e1 [Hin1 HF1]].
+      destruct (Hnext e1 Hin1) as [Hg1 [Hp1 Hf1]].
+      destruct (IHr oc p e1 o Hg1 Hp1 Hi Hf1 Hokr) as [_ Hrc]. destruct (Hrc r2 Hr2) as [e' [Hin2 HF2]].
+      destruct (HA rest oc p e1 o Hg1 Hp1 Hi Hf1 Hokr0) as [Hres _]. destruct (Hres e' Hin2) as [Hg' [Hx' _]].
+      exists e'. split; [rewrite eval_all_app; apply in_flat_map; eauto|].
+      apply Forall2_app; auto. clear - HF1 Hg' Hx'. induction HF1; constructor; auto. eapply dval_ext; eauto.
+  Qed.
+
+  Theorem all_rows : (forall q, P_rows q) /\ (forall l, A_rows l) /\ (forall c, C_rows c).
+  Proof.
+    apply pat_mutind.
+    - intros t l IH. apply P_rows_case; auto.
+    - apply A_rows_nil.
+    - intros a c IHc rest IHr. apply A_rows_cons; auto.
+    - apply C_rows_lit.
+    - intros q IH. exact IH.
+    - apply C_rows_any.
+    - apply C_rows_all.
+    - intros v s oc p a e o _ _ _ _ Hok. discriminate Hok.
+    - intros c' IH s oc p a e o Hg Hp Hi Hf Hok.
+      change (sels_apat C s oc p a (PSel c')) with (sels_apat C true oc p a c').
+      change (tr_apat C oc p a (PSel c')) with (tr_apat C oc p a c').
+      change (srows_apat (sub C) M s (PSel c') (attr W o a)) with (srows_apat (sub C) M true c' (attr W o a)).
+      apply IH; auto. simpl in Hok. destruct c'; try discriminate; exact Hok.
   Qed.
 
   (* ---- the root variable: one independent evaluation per domain element ---- *)
@@ -1298,6 +1582,90 @@ Section Main.
         exists e'. split; [apply root_split; eauto|]. rewrite <- Hcs in He'.
         rewrite (select_root_bound e' o (Hroot e' He')). simpl; auto.
   Qed.
+
+  (* ---- rows at the root ---- *)
+  Lemma sels_empty :
+    (forall q oc p a, fok_pat C objcls true oc p a q = true ->
+       (sels_pat C false oc p a q = [] <-> anysel_apat (PMatch q) = false)) /\
+    (forall l oc p, fok_alist C objcls true oc p l = true -> (sels_alist C oc p l = [] <-> anysel_alist l = false)) /\
+    (forall c oc p a, fok_apat C objcls true oc p a c = true ->
+       (sels_apat C false oc p a c = [] <-> anysel_apat c = false)).
+  Proof.
+    apply pat_mutind.
+    - intros t l IH oc p a Hok. rewrite fok_pat_eq in Hok. cbv zeta in Hok. apply andb_true_iff in Hok. destruct Hok as [_ Hal].
+      rewrite sels_pat_eq. simpl app. apply IH. exact Hal.
+    - intros oc p _. simpl. tauto.
+    - intros a c IHc rest IHr oc p Hok. rewrite fok_alist_cons in Hok.
+      apply andb_true_iff in Hok. destruct Hok as [Hok Hr]. apply andb_true_iff in Hok. destruct Hok as [_ Hc].
+      rewrite sels_alist_cons. simpl anysel_alist. rewrite orb_false_iff, <- (IHc _ _ _ Hc), <- (IHr _ _ Hr).
+      split; [apply app_eq_nil|intros [-> ->]; reflexivity].
+    - intros v oc p a _. simpl. tauto.
+    - intros q IH oc p a Hok. apply IH. exact Hok.
+    - intros v oc p a _. simpl. tauto.
+    - intros v oc p a _. simpl. tauto.
+    - intros v oc p a Hok. discriminate Hok.
+    - intros c IH oc p a Hok. simpl in Hok. simpl anysel_apat. split; [|discriminate].
+      destruct c as [v|[t l]|v|v|v|c']; try discriminate; simpl; try discriminate;
+      try (rewrite sels_pat_eq; discriminate).
+  Qed.
+
+  Lemma rows_root_split sels cs : sels <> [] -> forall r,
+    In r (flat_map (sel_rows M D sels) (eval_all cs [])) <->
+    exists o, In o D /\ In r (flat_map (sel_rows M D sels) (eval_all cs (root_env o))).
+  Proof.
+    intros Hne r. destruct cs as [|c cs'].
+    - simpl. rewrite app_nil_r. destruct sels as [|s0 rest]; [congruence|]. simpl sel_rows.
+      rewrite (path_factor M D PRoot s0 [] (under_root s0)) by (intros; reflexivity).
+      rewrite eval_root_nil, flat_map_map, flat_map_flat_map, in_flat_map. cbn [fst].
+      split; intros [o [Ho H]]; exists o; (split; [exact Ho|]).
+      + rewrite app_nil_r. exact H.
+      + rewrite app_nil_r in H. exact H.
+    - rewrite in_flat_map. split.
+      + intros [e' [Hin Hr]]. apply root_split in Hin. destruct Hin as [o [Ho Hin]]. exists o. split; auto.
+        apply in_flat_map. eauto.
+      + intros [o [Ho Hr]]. apply in_flat_map in Hr. destruct Hr as [e' [Hin Hr]]. exists e'. split; auto.
+        apply root_split. eauto.
+  Qed.
+
+  Lemma sels_root_ne rootsel T l : sels_root C rootsel T l <> [].
+  Proof. unfold sels_root. destruct rootsel; [discriminate|]. destruct (sels_alist C T PRoot l); discriminate. Qed.
+
+  Theorem run_rows_conds_exact rootsel T l : fok_alist C objcls true T PRoot l = true -> (forall o, In o D -> inst o T) ->
+    forall r, In r (run_rows_conds C M D (sels_root C rootsel T l) (tr_alist C T PRoot l)) <->
+      exists o r', In o D /\ In r' (srows_alist (sub C) M l o) /\ r = cols (rootsel || negb (anysel_alist l)) [VO o] ++ r'.
+  Proof.
+    intros Hok HD r. unfold run_rows_conds. rewrite true_envs_seq.
+    rewrite (rows_root_split _ _ (sels_root_ne rootsel T l)).
+    destruct all_rows as [_ [HR _]]. destruct all_stmts as [_ [HA _]].
+    pose proof (proj1 (proj2 (fok_mono C objcls)) _ _ _ Hok) as Hok0.
+    assert (Hat : forall o, In o D ->
+              good (root_env o) /\ lookup (root_env o) PRoot = Some (VO o) /\
+              (forall a, In a (names l) -> fresh (root_env o) (PAttr PRoot a))).
+    { intros o Ho. split; [apply good_cons; [apply good_nil|reflexivity|simpl; eauto]|]. split; [apply lookup_cons_eq|].
+      intros a _ x Hx. unfold root_env. rewrite lookup_cons_ne; auto. intros <-. apply under_size in Hx. simpl in Hx. lia. }
+    (* the row of one result *)
+    assert (Hrow : forall o e' r', In o D -> In e' (eval_all (tr_alist C T PRoot l) (root_env o)) ->
+              Forall2 (dval e') (sels_alist C T PRoot l) r' ->
+              sel_rows M D (sels_root C rootsel T l) e' = [cols (rootsel || negb (anysel_alist l)) [VO o] ++ r']).
+    { intros o e' r' Ho Hin HF. destruct (Hat o Ho) as [Hg [Hl Hf]].
+      destruct (HA l T PRoot (root_env o) o Hg Hl (HD o Ho) Hf Hok0) as [Hres _]. destruct (Hres e' Hin) as [Hg' [Hx' _]].
+      apply (sel_rows_det _ _ e'); [|exact Hg'|apply ext_refl].
+      assert (Hroot : dval e' PRoot (VO o)) by (apply dv_bound; apply Hx'; exact Hl).
+      unfold sels_root. destruct rootsel; simpl orb.
+      - simpl. constructor; auto.
+      - destruct (sels_alist C T PRoot l) as [|s0 rest] eqn:Hs.
+        + rewrite (proj1 (proj1 (proj2 sels_empty) l T PRoot Hok) Hs). simpl. inversion HF; subst. constructor; [auto|constructor].
+        + destruct (anysel_alist l) eqn:Han; [simpl; exact HF|].
+          apply (proj2 (proj1 (proj2 sels_empty) l T PRoot Hok)) in Han. congruence. }
+    split.
+    - intros [o [Ho Hr]]. apply in_flat_map in Hr. destruct Hr as [e' [Hin Hr]].
+      destruct (Hat o Ho) as [Hg [Hl Hf]].
+      destruct (HR l T PRoot (root_env o) o Hg Hl (HD o Ho) Hf Hok) as [Hs _]. destruct (Hs e' Hin) as [r' [Hr' HF]].
+      rewrite (Hrow o e' r' Ho Hin HF) in Hr. destruct Hr as [<-|[]]. exists o, r'. auto.
+    - intros [o [r' [Ho [Hr' ->]]]]. destruct (Hat o Ho) as [Hg [Hl Hf]].
+      destruct (HR l T PRoot (root_env o) o Hg Hl (HD o Ho) Hf Hok) as [_ Hc]. destruct (Hc r' Hr') as [e' [Hin HF]].
+      exists o. split; auto. apply in_flat_map. exists e'. split; auto. rewrite (Hrow o e' r' Ho Hin HF). simpl. auto.
+  Qed.
 End Main.
 
 (* C11 on the relaxed fragment: the answer is exactly what the relaxed reading denotes *)
@@ -1320,6 +1688,24 @@ Proof.
   rewrite (match_run_lax C objcls M T l dom Ht Hty (proj1 (proj2 (fok_mono C objcls)) _ _ _ HF)).
   unfold lax_run, spec_run. rewrite !filter_In, matches_eq. cbn [type_ok].
   rewrite (proj1 (proj2 (lax_strict C objcls M)) l T PRoot o HF). tauto.
+Qed.
+
+(* C11, selected inner parts: the rows reported for a pattern written with select / entity_selection are exactly the
+   Spec's projections of the satisfying assignments -- as a set.  (Multiplicities: the model, like the implementation,
+   yields a row once per satisfying assignment of the flattened collections, selected or not, and once per common member
+   for a literal collection given for a collection attribute; an exists(...) keeps one.) *)
+Theorem match_rows_exact C objcls M rootsel T l dom :
+  sub_trans C -> typed C objcls M -> F11 C objcls T l = true ->
+  forall r, In r (run_rows C M rootsel T l dom) <-> In r (spec_rows (sub C) M rootsel T l dom).
+Proof.
+  intros Ht Hty HF r. unfold run_rows, spec_rows.
+  rewrite (run_rows_conds_exact C objcls M (filter (fun o0 => sub C (otype M o0) T) dom) Ht Hty rootsel T l HF).
+  2:{ intros o0 Ho0. apply filter_In in Ho0. apply Ho0. }
+  rewrite in_flat_map. split.
+  - intros [o [r' [Ho [Hr' ->]]]]. apply filter_In in Ho. destruct Ho as [Ho Hi]. exists o. split; auto.
+    rewrite Hi. simpl. apply in_map. exact Hr'.
+  - intros [o [Ho Hr]]. destruct (sub C (otype M o) T) eqn:Hi; [|contradiction]. simpl in Hr.
+    apply in_map_iff in Hr. destruct Hr as [r' [<- Hr']]. exists o, r'. split; [apply filter_In; auto|auto].
 Qed.
 
 (* the Spec's answers are never lost, also where finding C11-e applies *)
